@@ -136,6 +136,21 @@ class Sub:
              S.BuiltinOptions.TransposeConvOptions, o)
     return y
 
+  def rnn(self, x, out_name, units=2):
+    """Builtin RNN: h' = relu(W x + R h + b); the hidden state is a variable
+    tensor the kernel writes back (state survives between invocations)."""
+    nin = self.shapes[x][-1]
+    w = self.const(out_name + '_w', self._w(out_name, (units, nin), 1))
+    r = self.const(out_name + '_r', self._w(out_name, (units, units), 2) * 0.5)
+    b = self.const(out_name + '_b', self._w(out_name, (units,), 3))
+    h = self.act(out_name + '_state', (self.shapes[x][0], units))
+    self.sg.tensors[h].isVariable = True
+    y = self.act(out_name, (self.shapes[x][0], units))
+    o = S.RNNOptionsT()
+    o.fusedActivationFunction = 1
+    self._op(BO.RNN, [x, w, r, b, h], [y], S.BuiltinOptions.RNNOptions, o)
+    return y
+
   def bmm(self, x, y_in, out_name, adj_y=False, const_rhs_shape=None):
     if const_rhs_shape is not None:
       y_in = self.const(out_name + '_rhs', self._w(out_name, const_rhs_shape, 3))
